@@ -376,6 +376,73 @@ def count_audit_visits(data):
             setattr(k, "get_unsafe_set", real)
 
 
+def audit_recomputation(data, limit_factor=20, timeout=15.0):
+    """is the time of this archive spent re-auditing shared nodes?  Counts get_unsafe_set invocations during
+    get_untrusted_types in a forked child and stops as soon as they exceed `limit_factor` x the number of states in the
+    schema (+5000): a walk that visits every node once per reference stays far below that.  -> (True, states, visits) | (False, ..)"""
+    import os
+    import signal
+
+    try:
+        schema, _, _ = valuecheck.archive_parts(data)
+        n_states = len(all_states(schema))
+    except Exception:
+        return False, 0, 0
+    bound = limit_factor * n_states + 5000
+    r, w = os.pipe()
+    pid = os.fork()
+    if pid == 0:
+        os.close(r)
+        out = "error"
+        try:
+            import skops.io._audit as A
+            from skops.io import get_untrusted_types
+
+            class _Stop(BaseException):
+                pass
+
+            n = [0]
+            classes = {A.Node} | set(A.NODE_TYPE_MAPPING.values())
+            done = set()
+            for c in classes:
+                for k in c.__mro__:
+                    if "get_unsafe_set" in k.__dict__ and k not in done:
+                        done.add(k)
+                        real = k.__dict__["get_unsafe_set"]
+
+                        def counting(self, _real=real):
+                            n[0] += 1
+                            if n[0] > bound:
+                                raise _Stop()
+                            return _real(self)
+
+                        setattr(k, "get_unsafe_set", counting)
+            try:
+                get_untrusted_types(data=data)
+                out = f"done {n[0]}"
+            except _Stop:
+                out = f"exceeded {n[0]}"
+            except Exception as ex:
+                out = f"raised {n[0]} {type(ex).__name__}"
+        finally:
+            os.write(w, out.encode())
+            os._exit(0)
+    os.close(w)
+    import select
+
+    ready, _, _ = select.select([r], [], [], timeout)
+    if not ready:
+        os.kill(pid, signal.SIGKILL)
+        os.waitpid(pid, 0)
+        os.close(r)
+        return False, n_states, -1
+    msg = os.read(r, 200).decode()
+    os.close(r)
+    os.waitpid(pid, 0)
+    parts = msg.split()
+    return parts[0] == "exceeded", n_states, int(parts[1]) if len(parts) > 1 and parts[1].isdigit() else 0
+
+
 # ------------------------------------------------------------------------------------------ check
 
 def run(ctx):
@@ -439,6 +506,10 @@ def run(ctx):
                     pass
             except Exception:
                 continue
+        if len(data) > 1_500_000:
+            # "promptly" is relative to the size of the input: multi-megabyte mutants (a widened list inside deep nesting)
+            # only measure throughput; keep the unstacked base instead
+            data, tags = r.choice(bases)[1], ["none:oversized-mutant-dropped"]
         batch.append(data)
         meta.append(dict(base=name, mutations=tags))
     seen_bases = {}
@@ -450,6 +521,7 @@ def run(ctx):
     limit = 20.0
     results = fuzzworker.run_parallel(batch, limit=limit, workers=16)
     hist, kinds, depth_hist = {}, {}, {}
+    slow_instances = []
     slowest = 0.0
     import base64
 
@@ -457,11 +529,25 @@ def run(ctx):
         for t in meta[i]["mutations"]:
             kinds[t] = kinds.get(t, 0) + 1
         depth_hist[len(meta[i]["mutations"])] = depth_hist.get(len(meta[i]["mutations"]), 0) + 1
-        rep = dict(kind="mutant", base=meta[i]["base"], mutations=meta[i]["mutations"], archive_b64=base64.b64encode(batch[i]).decode()
-                   if len(batch[i]) < 200000 else None)
+        rep = dict(kind="mutant", base=meta[i]["base"], mutations=meta[i]["mutations"], archive_bytes=len(batch[i]),
+                   archive_b64=base64.b64encode(batch[i]).decode() if len(batch[i]) < 200000 else None)
+        if rep["archive_b64"] is None and x is not None and x.get("status") in ("hang", "crash"):
+            import hashlib
+
+            from ..common import VERIF
+
+            big = VERIF / "evidence" / "replays" / f"C19_{hashlib.sha1(batch[i]).hexdigest()[:10]}.skops"
+            big.parent.mkdir(parents=True, exist_ok=True)
+            big.write_bytes(batch[i])
+            rep["archive_file"] = str(big.relative_to(VERIF))
         if x is None:
             continue
         if x["status"] == "hang":
+            # the recorded finding is identified by its call site: shared nodes re-audited once per path
+            recomputed, n_states, visits = audit_recomputation(batch[i])
+            if recomputed and any(f["key"] == "exponential-audit-shared-ids" for f in findings):
+                slow_instances.append(dict(base=meta[i]["base"], mutations=meta[i]["mutations"], states=n_states, visits_when_stopped=visits))
+                continue
             ofails.append((f"hang: no answer within {limit:.0f} s on a mutant of {meta[i]['base']} ({meta[i]['mutations']})", rep))
             continue
         if x["status"] == "crash":
@@ -489,7 +575,10 @@ def run(ctx):
     if exponential:
         if any(f["key"] == key for f in findings):
             ctx.known_finding(key, f"get_untrusted_types/load on {2 * visits[-1][0] + 1} nested states re-using ids performs "
-                                   f"{visits[-1][1]} audit visits ({visits[-1][2]} s), doubling per level: 'terminate promptly' fails for this family")
+                                   f"{visits[-1][1]} audit visits ({visits[-1][2]} s), doubling per level: 'terminate promptly' fails for this family"
+                                   + (f"; {len(slow_instances)} generated mutant(s) exceeded the time limit for the same reason "
+                                      f"(e.g. {slow_instances[0]['states']} states, stopped after {slow_instances[0]['visits_when_stopped']} visits)"
+                                      if slow_instances else ""))
         else:
             ofails.append((f"exponential-audit: archive of n nested lists re-using ids costs 2^(n+1)-1 audit visits (n={visits[-1][0]}: {visits[-1][1]})",
                            dict(kind="cost-family", visits=visits)))
@@ -507,7 +596,7 @@ def run(ctx):
              "get_untrusted_types, visualize and loads(trusted=reported) in a forked worker (20 s limit, 6 GB address space, dangerous names blocked): "
              "exit status, exception class, cwd/environ/sys.path/umask/global numpy RNG/files before vs after; schema-level model outcome compared",
         samples=[meta[0], meta[-1]], mutation_kinds=kinds, stack_depths=depth_hist, outcome_histogram=dict(sorted(hist.items(), key=lambda kv: -kv[1])[:40]),
-        slowest_call_seconds=slowest, audit_visits_family=visits, audit_family_exponential=exponential,
+        slowest_call_seconds=slowest, audit_visits_family=visits, audit_family_exponential=exponential, slow_instances_of_known_finding=slow_instances[:5],
         correspondence_mismatches=len(mism), model_outcomes_compared=len(res["obs"]), wall=round(time.time() - t0, 1))
     ctx.assumptions += [
         "PARTIAL: byte-level zip corruption and native code (np.load, load_npz, Cython __setstate__) are outside every Lean model; they are sampled in sandboxed workers",
@@ -519,8 +608,11 @@ def run(ctx):
 def replay(rep):
     import base64
 
-    if rep.get("archive_b64"):
-        rs = fuzzworker.run_batch([base64.b64decode(rep["archive_b64"])], limit=20.0)
+    if rep.get("archive_b64") or rep.get("archive_file"):
+        from ..common import VERIF
+
+        data = base64.b64decode(rep["archive_b64"]) if rep.get("archive_b64") else (VERIF / rep["archive_file"]).read_bytes()
+        rs = fuzzworker.run_batch([data], limit=20.0)
         print(json.dumps(rs, indent=1)[:2000])
         x = rs[0]
         bad = x is None or x["status"] != "ok" or x["changed"] or any(v[0] == "non-ordinary" for v in x["res"].values())
